@@ -90,6 +90,8 @@ EventDiff(got, want) ==
 \* the split children orders the demes library actually returned must list the children the specification derives
 EvRecOK(g, rec) == \A r \in Range(rec) : \E s \in Range(DiscreteEvents(g).splits) : s.parent = r.parent /\ Range(s.children) = Range(r.children)
 FImport(r) ==
+    IF \E q \in 1..Len(r.in.sampled) : ~\E d \in 1..Len(r.in.graph.demes) : r.in.graph.demes[d].name = r.in.sampled[q]
+    THEN {"SampledDemeNotInGraph"} ELSE
     LET want == Import(r.in.graph, r.in.sampled, r.in.stimes, r.in.Ne, r.in.fnames, r.in.ev, r.in.pow)
         got  == r.out.events
         n    == IF Len(got) < Len(want) THEN Len(got) ELSE Len(want)
